@@ -927,6 +927,39 @@ func runRedef(c *Ctx) {
 				okT, whyT = true, "result types are Out(i) of the wrapped function's type, plus the error type"
 				seenT := map[ssa.Value]bool{}
 				nOut := 0
+				// parameters of a private step that computes the list, bound to the arguments of the call that reaches it
+				envT := map[*ssa.Parameter]ssa.Value{}
+				viaEnv := func(vs []ssa.Value) []ssa.Value {
+					var out []ssa.Value
+					for _, v := range vs {
+						if pr, isP := v.(*ssa.Parameter); isP {
+							if a, bound := envT[pr]; bound {
+								out = append(out, core.Sources(a)...)
+								continue
+							}
+						}
+						out = append(out, v)
+					}
+					return out
+				}
+				stepResult := func(cl *ssa.Call, idx int, d int, wt func(ssa.Value, int)) bool {
+					h := cl.Common().StaticCallee()
+					if h == nil || !p.InTarget(h) || h.Blocks == nil || cl.Common().IsInvoke() {
+						return false
+					}
+					args := cl.Common().Args
+					for i, pr := range h.Params {
+						if i < len(args) {
+							envT[pr] = args[i]
+						}
+					}
+					for _, r := range core.Returns(h) {
+						if idx < len(r.Results) {
+							wt(r.Results[idx], d+1)
+						}
+					}
+					return true
+				}
 				var wt func(v ssa.Value, d int)
 				wt = func(v ssa.Value, d int) {
 					if v == nil || seenT[v] || d > 12 || !okT {
@@ -940,6 +973,11 @@ func runRedef(c *Ctx) {
 						}
 					case *ssa.Slice:
 						wt(x.X, d+1)
+					case *ssa.Extract:
+						if cl, isC := x.Tuple.(*ssa.Call); isC && stepResult(cl, x.Index, d, wt) {
+							return
+						}
+						okT, whyT = false, "result types come from "+core.Path(v)
 					case *ssa.UnOp:
 						if cf := p.ConstructedField(x); cf != ssa.Value(x) {
 							wt(cf, d+1) // a field of the generated function's state struct, set once by its constructor
@@ -979,7 +1017,7 @@ func runRedef(c *Ctx) {
 								return
 							}
 							recv := core.CallArgs(cl.Common())[0]
-							for _, rs := range core.Sources(recv) {
+							for _, rs := range viaEnv(core.Sources(recv)) {
 								tc, ok := rs.(*ssa.Call)
 								if !ok || core.CalleeName(tc.Common()) != "(reflect.Value).Type" {
 									okT, whyT = false, "result types are read from "+core.Path(rs)+", not from the wrapped function's type"
@@ -1003,7 +1041,7 @@ func runRedef(c *Ctx) {
 									as := core.CallArgs(cl.Common())
 									own := len(as) == 2
 									if own {
-										for _, rs := range core.Sources(as[0]) {
+										for _, rs := range viaEnv(core.Sources(as[0])) {
 											tc, ok := rs.(*ssa.Call)
 											if !ok || core.CalleeName(tc.Common()) != "(reflect.Value).Type" {
 												own = false
@@ -1024,6 +1062,9 @@ func runRedef(c *Ctx) {
 								}
 								okT, whyT = false, "a result type other than the error type is appended: "+core.Path(e)
 							}
+							return
+						}
+						if x.Common().Signature().Results().Len() == 1 && stepResult(x, 0, d, wt) {
 							return
 						}
 						okT, whyT = false, "result types come from "+core.ShortCallee(core.CalleeName(x.Common()))+", not from the wrapped function's own type"
@@ -1161,6 +1202,108 @@ func runRedef(c *Ctx) {
 			}
 			c.R.Add("REDEF-R5", "generated|error-result-complete", core.FuncName(body), p.Pos(body.Pos()), complete,
 				"on the error path every result slot holds a zero value and the error is written last", ternary(complete, "filled, then the error stored", why))
+		}
+		// the error-path result list is as long as the declared result list: the list whose length sizes it is the very
+		// list handed to reflect.FuncOf — the same variable, or a field of the generated function's state that holds every
+		// alternative of that list (a state struct filled before the final error type is appended declares one result
+		// more than the error path returns)
+		{
+			var funcOf *ssa.Call
+			for _, ci := range p.RegionCalls(redefine, "reflect.FuncOf") {
+				funcOf, _ = ci.(*ssa.Call)
+			}
+			if funcOf != nil {
+				declared := map[ssa.Value]bool{}
+				for _, sv := range p.ISources(funcOf.Common().Args[1]) {
+					declared[core.Strip(sv)] = true
+				}
+				for _, g := range p.Region(body) {
+					core.Instrs(g, func(in ssa.Instruction) {
+						mk, ok := in.(*ssa.MakeSlice)
+						if !ok || core.TypeStr(mk.Type()) != "[]reflect.Value" {
+							return
+						}
+						// only the list that receives the boxed error
+						isErrList := false
+						core.Instrs(g, func(in2 ssa.Instruction) {
+							if st, ok := in2.(*ssa.Store); ok {
+								if ia, ok := st.Addr.(*ssa.IndexAddr); ok && ia.X == ssa.Value(mk) {
+									if _, ok := c.boxedErr(st.Val); ok {
+										isErrList = true
+									}
+								}
+							}
+						})
+						ln, ok := core.Strip(mk.Len).(*ssa.Call)
+						if !isErrList || !ok || core.CalleeName(ln.Common()) != "builtin.len" {
+							return
+						}
+						x := p.Bind(core.Strip(ln.Common().Args[0]))
+						if core.TypeStr(x.Type()) != "[]reflect.Type" {
+							return
+						}
+						have := map[ssa.Value]bool{}
+						if fr, isField := core.AsFieldLoad(x); isField && fr.Owner != "" && fr.Owner != "Func" {
+							// declared from the same field of the state struct
+							if dfr, isF := core.AsFieldLoad(core.Strip(funcOf.Common().Args[1])); isF && dfr.Owner == fr.Owner && dfr.Field == fr.Field {
+								c.R.Add("REDEF-R5", "generated|error-result-sized-by-declared-types", core.FuncName(g), p.InstrPos(mk), true,
+									"the error-path result list is sized by the very list of result types the generated function was declared with", "same field of the generated function's state")
+								return
+							}
+							for _, rf := range p.Region(redefine) {
+								core.Instrs(rf, func(in3 ssa.Instruction) {
+									if st, ok := in3.(*ssa.Store); ok {
+										if sf, ok := core.AsFieldAddr(st.Addr); ok && sf.Owner == fr.Owner && sf.Field == fr.Field {
+											for _, sv := range p.ISources(st.Val) {
+												have[core.Strip(sv)] = true
+											}
+										}
+									}
+								})
+							}
+						} else {
+							var vals []ssa.Value
+							switch y := x.(type) {
+							case *ssa.UnOp:
+								if fv, isFree := y.X.(*ssa.FreeVar); isFree && y.Op == token.MUL {
+									if a, isAlloc := p.Binding(fv).(*ssa.Alloc); isAlloc {
+										for _, ref := range *a.Referrers() {
+											if st, isSt := ref.(*ssa.Store); isSt && st.Addr == ssa.Value(a) {
+												vals = append(vals, st.Val)
+											}
+										}
+									}
+								}
+							case *ssa.FreeVar:
+								vals = append(vals, p.Binding(y))
+							}
+							if len(vals) == 0 {
+								vals = append(vals, x)
+							}
+							for _, v0 := range vals {
+								if v0 == nil {
+									continue
+								}
+								for _, sv := range p.ISources(v0) {
+									have[core.Strip(sv)] = true
+								}
+							}
+						}
+						if len(have) == 0 {
+							return
+						}
+						missing := ""
+						for dv := range declared {
+							if !have[dv] {
+								missing = core.Path(dv)
+							}
+						}
+						c.R.Add("REDEF-R5", "generated|error-result-sized-by-declared-types", core.FuncName(g), p.InstrPos(mk), missing == "",
+							"the error-path result list is sized by the very list of result types the generated function was declared with",
+							ternary(missing == "", "same list", "the declared list can be "+missing+", which never reaches "+core.Path(x)))
+					})
+				}
+			}
 		}
 		c.R.Add("REDEF-R5", "generated|returns-original-results", core.FuncName(body), p.Pos(body.Pos()), errPath && okPath,
 			"the generated function returns the original function's outputs, or zero values with the error in final position", fmt.Sprintf("error-path=%v success-path=%v", errPath, okPath))
